@@ -41,7 +41,7 @@ fn type_text(ty: &Value, at: Option<&str>) -> String {
         "OID" => "OBJECT IDENTIFIER".into(),
         "RELOID" => "RELATIVE-OID".into(),
         "CHOICE" => format!("CHOICE {{ {} }}", ty["alts"].as_array().unwrap().iter().map(|a| format!("{} {}", s(&a["n"]), type_text(&a["ty"], None))).collect::<Vec<_>>().join(", ")),
-        "SEQUENCE" => format!("SEQUENCE {{ {} }}", ty["comps"].as_array().unwrap().iter().map(|c| {
+        k @ ("SEQUENCE" | "SET") => format!("{k} {{ {} }}", ty["comps"].as_array().unwrap().iter().map(|c| {
             let base = format!("{} {}", s(&c["n"]), type_text(&c["ty"], None));
             match s(&c["opt"]) {
                 "optional" => format!("{base} OPTIONAL"),
@@ -115,7 +115,7 @@ pub fn render(c: &Value) -> String {
     // the governing type: written in place, or reached through `chain` type references
     let inline_only = ty["inline"] == true;
     // constructed types are given a name before values of them are written
-    let chain = if inline_only { 0 } else if matches!(s(&ty["k"]), "ENUMERATED" | "CHOICE" | "SEQUENCE" | "SEQOF") { c["chain"].as_u64().unwrap().max(1) } else { c["chain"].as_u64().unwrap() };
+    let chain = if inline_only { 0 } else if matches!(s(&ty["k"]), "ENUMERATED" | "CHOICE" | "SEQUENCE" | "SET" | "SEQOF") { c["chain"].as_u64().unwrap().max(1) } else { c["chain"].as_u64().unwrap() };
     let gov = match chain {
         0 => base.clone(),
         1 => {
